@@ -2,6 +2,7 @@ import KoordVerif.Common.Proto
 import KoordVerif.Model.C20
 import KoordVerif.Model.C20Hist
 import KoordVerif.Model.C20HistQ
+import KoordVerif.Model.C20Race
 /-
 Driver for C20.  A case is a history of ConfigMap events on one SLOCfg cache, with probes:
   def <s> <v> <k>*                  one flattened entry of the built-in default of section s (0..3); before any event
@@ -26,6 +27,8 @@ History harness (`hist`, Model/C20Hist.lean): one World (cache + API objects) pe
                                     (requests the model still has queued are reconciled first)
   hrecfail <name>                   (mode 1) request <name> is reconciled but its API write fails: nothing stored, queued again
   hrec <name>                       (mode 1) request <name> is reconciled (queued or not: spurious reconciles are allowed)
+  hrestartlate                      (mode 1) controller restart whose initial ConfigMap Create event is NOT handled yet (Model/C20Race.lean)
+  hcmlate                           (mode 1) … that initial Create event, for the ConfigMap object the model's API holds now
   hobs                              print every NodeSLO (`s <name> <sec> <v> <k>*`, by name) and, per node, what the cache
                                     would deliver (`g <name> same` when equal to the stored NodeSLO, else `g <name> <sec> ...`)
 -/
@@ -199,6 +202,14 @@ def stepLine (s : DState) (line : String) : DState :=
       let x := qstep s.defaults s.parse { w := s.world, q := s.hq } (.recoFail n)
       { s with hw := some x.w, hq := x.q }
     | none => s.bad
+  | ["hrestartlate"] =>
+    if s.pend.isSome || !s.qmode then s.bad else
+    let x := rstep s.defaults s.parse { w := s.world, q := s.hq } .restartLate
+    { s with hw := some x.w, hq := x.q }
+  | ["hcmlate"] =>
+    if s.pend.isSome || !s.qmode then s.bad else
+    let x := rstep s.defaults s.parse { w := s.world, q := s.hq } .cmLate
+    { s with hw := some x.w, hq := x.q }
   | ["hobs"] =>
     if s.pend.isSome || s.cfg.isSome then s.bad else
     { s with hw := some s.world, out := s.out ++ (showWorld s.world).toArray }
